@@ -726,6 +726,7 @@ def r7(k: Kit) -> None:
     state_guards(k, 'C03.R7', [
         (C6 + '_process_newkeys', 'self._next_recv_encryption', True),
         (C6 + '_process_kexinit', 'self._kex', False),
+        (C6 + '_process_kexinit', 'self._next_recv_encryption', False),
     ])
 
 
